@@ -45,9 +45,10 @@ def shape_cases(seed, tier):
 def limit_cases(seed, tier):
     """(e): several independent bistable modules x 'limited prefix, then a stack-limited dfs / a size-limited attractor-seed expansion'."""
     fixed = families.limited_dfs_histories() + families.limited_aseeds_histories()
-    for k, (name, bnet) in enumerate(families.interleave((families.limit_nets(seed, tier), 1), (families.deep_nets(seed, tier), 1))):
+    nets = families.interleave(((("limit", n, b) for n, b in families.limit_nets(seed, tier)), 1), ((("deep", n, b) for n, b in families.deep_nets(seed, tier)), 1))
+    for k, (src, name, bnet) in enumerate(nets):
         names = families.variables(bnet)
-        if name in families.LIMIT_NETS:
+        if src == "limit" and name in families.LIMIT_NETS:
             picks = fixed
         else:
             rng = random.Random(f"{seed}-{name}-c03-limited")
